@@ -50,7 +50,8 @@ def parseNew (toks : List String) : Cfg :=
             pex := kvStr toks "pex" ≠ "0" }
 
 def initSt (c : Cfg) (magnet : Bool) : St :=
-  { cfg := c, info := !magnet, fileExists := c.flens.map fun _ => false, bad := c.dataSects }
+  { cfg := c, info := !magnet, fileExists := c.flens.map fun _ => false, known := c.flens.map fun _ => false,
+    bad := c.dataSects }
 
 /-- Split an observation into its leading verdict word (if any) and `key=value` tokens. -/
 def splitObs (o : String) : String × List (String × String) :=
@@ -119,9 +120,15 @@ def applyOp (s : St) (op : String) (implVerdict : String) : StepOut :=
     { st := m.1, verdict := v, outs := m.2 }
   match toks.headD "" with
   | "start" => fin (start m)
-  | "stop" => fin (onSt m (·.stop false))
-  | "verify" => fin (handleVerifyCommand m)
-  | "obs" | "announce" => fin m
+  | "stop" => fin (onSt (onSt m (·.stop false)) fun s => { s with gateOpen := false, gateRead := false })
+  | "verify" => fin (onSt (handleVerifyCommand m) fun s => { s with gateOpen := false, gateRead := false })
+  | "obs" | "announce" | "diskcheck" => fin m
+  | "mutate" =>
+    if !s.openFiles.isEmpty || s.errC then fin m "skipped:not-stopped" else
+    let file := if kvStr toks "file" = "all" then none else some (kvNat toks "file")
+    let how := match kvStr toks "how" with
+      | "delete" => Mut.delete | "corrupt" => Mut.corrupt (kvNat toks "off") | _ => Mut.fill
+    fin (onSt m fun s => mutate s file how)
   | "gate" =>
     let on := kvStr toks "on" ≠ "0"
     let m := onSt m fun s =>
@@ -205,6 +212,7 @@ def renderObs (s : St) (verdict : String) (outs : List Out) (impl : List (String
     | "susp" => boolStr s.writing.isSome
     | "ram" => s!"{s.dls.length}/{s.dls.length * s.cfg.pl}"
     | "sto" => ",".intercalate s.sto
+    | "disk" => if allTrue s.diskOK && (List.range s.cfg.flens.length).all (fun f => s.cfg.fpads.getD f false || s.fileExists.getD f false) then "ok" else "bad"
     | _ => v
   let isPeerKey (k : String) : Bool := k.startsWith "p" && (k.drop 1).toString.toNat?.isSome
   -- per-peer control messages
@@ -268,6 +276,18 @@ def oracles (prev s : St) (impl : List (String × String)) : List String :=
     then [s!"C17 write-cache-reservations-unbalanced ram={get "ram"} downloads={(parseDl (get "dl")).length}"] else []
   c01a ++ c01b ++ c01c ++ c04 ++ c10 ++ c17
 
+/-- C04: after the final phase (restart + honest seed answering every request) the torrent must be
+complete with correct files. -/
+def finalOracle (s : St) (op : String) (impl : List (String × String)) : List String :=
+  let get (k : String) : String := ((impl.find? fun (x, _) => x = k).map (·.2)).getD ""
+  if (words op).headD "" = "diskcheck" && kvStr (words op) "final" = "1" then
+    let bits := bitsOf (get "bf")
+    let complete := get "bf" ≠ "-" && bits.all id && (get "st" = "Seeding" || (s.cfg.stopAfter && get "st" = "Stopped"))
+    (if !complete then [s!"C04 restart-does-not-converge st={get "st"} have={get "have"} missing={get "missing"}"] else []) ++
+    -- bytes changed behind the client's back and never re-verified cannot be known to it
+    (if complete && get "disk" ≠ "ok" && !s.tainted then ["C04 complete-but-files-differ"] else [])
+  else []
+
 def stepDriver (d : DSt) (op implObs : String) : DSt × String × List String :=
   let toks := words op
   if toks.headD "" = "new" then
@@ -304,6 +324,9 @@ def stepDriver (d : DSt) (op implObs : String) : DSt × String × List String :=
         | some (.piece i b l good) => some (kvNat toks "p", i, b, l, good)
         | _ => parked
       else parked
+    -- listening on the peer port can fail for reasons outside the program (port taken): follow the implementation
+    let implWorkers := commaList (((impl.find? fun (k, _) => k = "workers").map (·.2)).getD "-")
+    let st1 := if st1.acceptor && !s.acceptor && !(implWorkers.contains "acceptor") then { st1 with acceptor := false } else st1
     match st1.panicked with
     | some why => ({ d with s := some st1 }, "model-panic:" ++ why, [s!"C04 model-predicts-panic why={why.replace " " "_"}"])
     | none =>
@@ -311,7 +334,9 @@ def stepDriver (d : DSt) (op implObs : String) : DSt × String × List String :=
       let (st2, errs) := reconcile st1 implDl
       let dlTok := if errs.isEmpty then (((impl.find? fun (k, _) => k = "dl").map (·.2)).getD "-")
                    else "inadmissible[" ++ (";".intercalate errs).replace " " "_" ++ "]"
-      let viol := oracles s st2 impl ++ errs.map (fun e => "C09 picker-choice-inadmissible " ++ e.replace " " "_")
+      -- C17: a connection whose handshake failed must be closed, not kept
+      let c17hs := if toks.headD "" = "peer" && implVerdict = "refused" then ["C17 failed-handshake-socket-left-open"] else []
+      let viol := oracles s st2 impl ++ finalOracle st2 op impl ++ c17hs ++ errs.map (fun e => "C09 picker-choice-inadmissible " ++ e.replace " " "_")
       ({ s := some st2, parked := parked }, renderObs st2 r.verdict outs1 impl dlTok, viol)
 
 def mkSuite (name : String) : Suite where
